@@ -26,6 +26,7 @@ TICK = 0.5            # seconds per tick (dyadic: every time stamp is exact and 
 RULE_ORDER = ("once", "always", "update", "change", "never", "streak", "deck")
 VALUE_RULES = ("once", "always", "update", "change", "never")
 HDR = {"h": True, "t": 0, "v": ()}
+TLC_TIMEOUT = 8 * 3600            # slowness of a loaded machine must never become a verdict
 _count = itertools.count()
 _mods = {}
 
@@ -106,7 +107,7 @@ def wellformed(entries):
 class LogWorld:
     """a house with a store, the shares, a real Logger with one real Log per rule, and the skedder's bookkeeping"""
 
-    def __init__(self, logs, sel, period, root, keep=0, cycle=0, size=0, flush=120, reuse=False):
+    def __init__(self, logs, sel, period, root, keep=0, cycle=0, size=0, flush=120, reuse=False, fresh=True):
         m = ioflo()
         G = m["G"]
         self.m, self.G = m, G
@@ -116,8 +117,8 @@ class LogWorld:
         self.rules = [r for r in RULE_ORDER if r in logs]
         self.root = root
         self.reuse = reuse
-        if reuse:       # the directory <root>/hs/lg is used again: nothing of an earlier world may be left in it
-            clear_dir(os.path.join(root, "hs", "lg"))
+        if reuse and fresh:   # the directory <root>/hs/lg is used again: nothing of an earlier world may be left in it
+            clear_dir(os.path.join(root, "hs", "lg"))     # (fresh = False: a later session of the same scenario)
         self.house = m["housing"].House(name="hs")
         self.store = st = self.house.store
         self.logger = lg = m["logging"].Logger(name="lg", store=st, schedule=G.ACTIVE, prefix=root, period=period * TICK,
@@ -512,7 +513,7 @@ def validate_tolerant(module, cfg, spec_dir, traces, batch=400, procs=None):
     batches = [list(range(i, min(i + batch, len(traces)))) for i in range(0, len(traces), batch)]
 
     def work(b):
-        return b, trace._run_batch(module, cfg, spec_dir, traces, b, False, module, 1, False, 1800)
+        return b, trace._run_batch(module, cfg, spec_dir, traces, b, False, module, 1, False, TLC_TIMEOUT)
 
     with ThreadPoolExecutor(max_workers=procs) as ex:
         results = list(ex.map(work, batches))
@@ -538,7 +539,7 @@ def validate_tolerant(module, cfg, spec_dir, traces, batch=400, procs=None):
                 suspects.append(i)
 
     def single(i):
-        return i, trace._run_batch(module, cfg, spec_dir, traces, [i], True, module + "-diag", 1, False, 1800)
+        return i, trace._run_batch(module, cfg, spec_dir, traces, [i], True, module + "-diag", 1, False, TLC_TIMEOUT)
 
     with ThreadPoolExecutor(max_workers=procs) as ex:
         for i, res in ex.map(single, suspects[:24]):
@@ -631,11 +632,11 @@ def run_c22(ctx):
     ntr = ctx.pick(600, 6000)
     # the TLC runs do not depend on each other: they run side by side while the real logger records its random histories
     with ThreadPoolExecutor(max_workers=4) as tp:
-        f_mc = tp.submit(tlc.run, "LogRules", mc, spec_dir=SPEC_DIR, deadlock=False, tag="c22mc", workers=max(1, ncpu // 2))
+        f_mc = tp.submit(tlc.run, "LogRules", mc, spec_dir=SPEC_DIR, deadlock=False, tag="c22mc", workers=max(1, ncpu // 2), timeout=TLC_TIMEOUT)
         f_g = tp.submit(tlc.run, "LogRules", gcfg, spec_dir=SPEC_DIR, deadlock=False, dump_dot=dot, tag="c22g", coverage=False,
-                        workers=max(1, ncpu // 4))
+                        workers=max(1, ncpu // 4), timeout=TLC_TIMEOUT)
         f_sim = tp.submit(tlc.run, "LogRules", scfg, spec_dir=SPEC_DIR, deadlock=False, workers=1,
-                          simulate={"num": nsim, "depth": ctx.pick(50, 90), "file": pref}, seed=ctx.seed + 1, tag="c22sim")
+                          simulate={"num": nsim, "depth": ctx.pick(50, 90), "file": pref}, seed=ctx.seed + 1, tag="c22sim", timeout=TLC_TIMEOUT)
         # 4a. binding B: record
         hs = random_histories(ctx.seed, ntr, "c22b", procs=max(1, ncpu // 2))
         trs = []
@@ -672,9 +673,16 @@ def run_c22(ctx):
         res = f_sim.result()
         ctx.add_model(res, "LogRules/simulate", {"num": nsim})
         sims = replay.load_sim_traces(pref)
+        if len(sims) < nsim // 2:      # fewer behaviour files than asked: simulate once more and go on with what there is
+            res = tlc.run("LogRules", scfg, spec_dir=SPEC_DIR, deadlock=False, workers=1, seed=ctx.seed + 1001, tag="c22simb",
+                          simulate={"num": nsim, "depth": ctx.pick(50, 90), "file": pref + "b"}, timeout=TLC_TIMEOUT)
+            ctx.add_model(res, "LogRules/simulate-again", {"num": nsim})
+            sims = replay.load_sim_traces(pref)
+            if not sims:
+                raise tlc.TlcError("simulation produced no behaviour at all")
+            if len(sims) < nsim // 2:
+                ctx.note("simulation yielded %d behaviours instead of %d (went on with them)" % (len(sims), nsim))
         shutil.rmtree(os.path.dirname(pref), ignore_errors=True)
-        if len(sims) < nsim // 2:
-            raise tlc.TlcError("simulation produced %d behaviours instead of %d" % (len(sims), nsim))
         n3, divs3 = preplay("C22", sims, _mk_rules)
         ctx.diverge(divs3)
         ctx.add_validated(len(sims), {"simulated": [s[0] for s in sims[0]][:40]})
